@@ -2,8 +2,8 @@
 (***************************************************************************)
 (* Addresses and the scriptPubKeys they stand for, per network.  The       *)
 (* prefix tables are transcribed from the BIPs and Bitcoin Core's          *)
-(* chainparams, not from btclib's network.py.  Networks: main, test        *)
-(* (testnet3/4 and signet share every prefix), regtest.                    *)
+(* chainparams, not from btclib's network.py.  Prefix classes: main, test     *)
+(* (testnet3/4 and signet share every prefix), regtest (its own hrp only).  *)
 (***************************************************************************)
 EXTENDS Bech32, Base58
 
@@ -42,5 +42,28 @@ WIFDecode(s) ==
     IF d.ok /\ Len(d.v) \in {33, 34} /\ d.v[1] \in {128, 239} /\ (Len(d.v) = 34 => d.v[34] = 1)
     THEN [ok |-> TRUE, key |-> SubSeq(d.v, 2, 33), compressed |-> Len(d.v) = 34, net |-> IF d.v[1] = 128 THEN "main" ELSE "test"]
     ELSE [ok |-> FALSE, key |-> << >>, compressed |-> FALSE, net |-> "none"]
+\* The five networks by name.  An hrp tells main / test / regtest apart; every other prefix only main from the rest.
+Networks == {"mainnet", "testnet", "regtest", "signet", "testnet4"}
+ClassOf(name) == CASE name = "mainnet" -> "main" [] name = "regtest" -> "regtest" [] OTHER -> "test"
+TypeOfNet(name) == IF name = "mainnet" THEN "main" ELSE "test"
+\* BIP32 and SLIP132 version bytes of extended keys (x/y/Y/z/Z and t/u/U/v/V)
+XPubMain == {FromHex("0488b21e"), FromHex("049d7cb2"), FromHex("0295b43f"), FromHex("04b24746"), FromHex("02aa7ed3")}
+XPrvMain == {FromHex("0488ade4"), FromHex("049d7878"), FromHex("0295b005"), FromHex("04b2430c"), FromHex("02aa7a99")}
+XPubTest == {FromHex("043587cf"), FromHex("044a5262"), FromHex("024289ef"), FromHex("045f1cf6"), FromHex("02575483")}
+XPrvTest == {FromHex("04358394"), FromHex("044a4e28"), FromHex("024285b5"), FromHex("045f18bc"), FromHex("02575048")}
+\* the network type a key string's prefix belongs to ("none" when the prefix is not one of the kind)
+PrefixType(kind, prefix) ==
+    CASE kind = "wif"  -> IF prefix = <<128>> THEN "main" ELSE IF prefix = <<239>> THEN "test" ELSE "none"
+      [] kind = "xpub" -> IF prefix \in XPubMain THEN "main" ELSE IF prefix \in XPubTest THEN "test" ELSE "none"
+      [] kind = "xprv" -> IF prefix \in XPrvMain THEN "main" ELSE IF prefix \in XPrvTest THEN "test" ELSE "none"
+\* a key string read with a network declared ("" = none): accepted exactly when the declared network writes that prefix; the network
+\* answered is the declared one, and without a declaration the first network of the type
+KeyNetwork(kind, prefix, declared) ==
+    LET t == PrefixType(kind, prefix) IN
+    IF t = "none" \/ (declared # "" /\ TypeOfNet(declared) # t) THEN [ok |-> FALSE, net |-> "none"]
+    ELSE [ok |-> TRUE, net |-> IF declared # "" THEN declared ELSE IF t = "main" THEN "mainnet" ELSE "testnet"]
+\* the single-key output scripts
+SpkOfKey(fn, sec) == CASE fn = "p2pkh" -> SpkP2PKH(Hash160(sec)) [] fn = "p2wpkh" -> SpkWitness(0, Hash160(sec))
+                       [] fn = "p2wpkh_p2sh" -> SpkP2SH(Hash160(SpkWitness(0, Hash160(sec))))
 WIFEncode(key, compressed, net) == Check58(<<WIFVersion(net)>> \o key \o (IF compressed THEN <<1>> ELSE << >>))
 =============================================================================
